@@ -48,6 +48,9 @@ class ReplaceTag(Tag):
         # TODO: add ignore-case option?
         self.pattern = re.compile(pattern)
         self.replacement = replacement
+        # Invalid escapes or group references in the replacement are configuration errors,
+        # not something to be discovered when the first file is processed
+        self.pattern.sub(replacement, "")
 
     def process(self, file: File, context: Optional[str]) -> str:
         assert context is not None
